@@ -107,7 +107,8 @@ def do_corr(res, lines):
     woven, real = [], []
     for l in lines:
         if rr.random() < 0.04 and len(woven) - len(real) < 400:
-            d = disturbed(rr, l)
+            pool = fail_pool()
+            d = rr.choice(pool) if pool and rr.random() < 0.5 else disturbed(rr, l)
             if d:
                 woven.append(d)
         real.append(len(woven))
@@ -119,6 +120,41 @@ def do_corr(res, lines):
     for l, a, b in diffs:
         res.diffs.append(dict(op=l, py=a, model=b))
     return [pyw[i] for i in real]
+
+
+_POOL = None
+
+
+def fail_pool():
+    """frames of grouped message types, cut inside the payload, that the implementation *rejects* (most cuts are
+    accepted: a short slice still decodes as an integer) — found once per process by trying"""
+    global _POOL
+    if _POOL is None:
+        rr, pool = random.Random(4242), []
+        for ent in defs.catalogue():
+            if not ent["reachable"] or not any(isinstance(v, tuple) and v[0] not in gen.BITTYPES for v in ent["defn"].values()):
+                continue
+            lay = gen.layout(rr, ent, maxrep=3)
+            if lay is None or len(lay.payload) < 2:
+                continue
+            for _ in range(40):
+                cut = lay.payload[:rr.randrange(1, len(lay.payload))]
+                l = f"parse {ent['mode']} 1 1 {gen.frame(ent['cls'], ent['id'], cut).hex()}"
+                if canon.handle(l).startswith("err"):
+                    pool.append(l)
+                    break
+            # … and a construction from keywords that is refused at a value inside a group
+            if len(pool) < 80 and lay.names:
+                toks = kw_tokens(lay.attrs[1], lay.names)
+                grouped = [k for k, t in enumerate(toks) if ":" in t.split("=", 1)[0]]
+                if grouped:
+                    k = grouped[-1]
+                    toks[k] = toks[k].split("=", 1)[0] + "=i99999999999999999999"
+                    l = f"construct {ent['cls'].hex()} {ent['id'].hex()} {ent['mode']} 1 A " + " ".join(toks)
+                    if len(l) < 6000 and canon.handle(l).startswith("err"):
+                        pool.append(l)
+        _POOL = pool
+    return _POOL
 
 
 def disturbed(rr, line):
